@@ -30,7 +30,8 @@ def _k_array_bigint(case, failure):
     """ARRAY<INTEGER> from JSON text holding an integer outside orjson's 64-bit range, wrong element value."""
     import re
 
-    if case.get("ty") != ["ARRAY", ["INTEGER"]] or not str(failure.get("clause", "")).startswith("JSON array element-wise"):
+    cl = str(failure.get("clause", ""))
+    if case.get("ty") != ["ARRAY", ["INTEGER"]] or not (cl.startswith("JSON array element-wise") or cl.startswith("ARRAY cast differs from the element type's cast")):
         return False
     v = py_val(case["val"])
     if isinstance(v, bytes):
@@ -305,15 +306,26 @@ def elementwise(c, out):
     """`element-wise to the element type`, on the implementation's own outputs: the array cast is the list of the
     element type's casts of the (JSON-decoded) elements, and raises when one of them raises."""
     v = py_val(c["val"])
+    agreed = True
     if isinstance(v, (str, bytes)):
+        # the JSON values the text denotes, read exactly (Python's json: integers of any size; NaN / Infinity literals are
+        # not JSON).  No opinion on text that is not JSON.  `agreed`: orjson reads the same elements (it reads integers
+        # beyond 64 bits as doubles and rejects numbers that overflow a double) — only then is a raising cast judged.
         import orjson
 
+        def reject(name):
+            raise ValueError(name)
+
         try:
-            elems = orjson.loads(v)
+            elems = json.loads(v.decode("utf-8") if isinstance(v, bytes) else v, parse_constant=reject)
         except Exception:
             return None
         if not isinstance(elems, list):
             return None
+        try:
+            agreed = strict_same(orjson.loads(v), elems)
+        except Exception:
+            agreed = False
     elif isinstance(v, (list, tuple)):
         elems = list(v)
     else:
@@ -327,7 +339,7 @@ def elementwise(c, out):
     if any(p_[0] == "err" for p_ in per):
         return None if out[0] == "err" else "ARRAY cast returns although the cast of an element raises"
     if out[0] != "ok":
-        return "ARRAY cast raises %s although every element casts" % out[1]
+        return ("ARRAY cast raises %s although every element casts" % out[1]) if agreed else None
     if not same(out[1], [p_[1] for p_ in per]):
         return "ARRAY cast differs from the element type's cast of each element"
     return None
@@ -401,17 +413,25 @@ def model_results(ctx, cases):
                 v = py_val(c["val"])
                 if v is None or c.get("no_model"):
                     continue
+                et = c["ty"][1]
                 if isinstance(v, (str, bytes)):
+                    # the model reads the JSON text itself (Model/CastJson.lean); orjson only decides here whether the
+                    # *elements* are inside the domain of the element type's model
                     import orjson
                     try:
                         elems = orjson.loads(v)
                     except Exception:
+                        elems = None  # malformed: the model must reject it too
+                    if isinstance(elems, str):
+                        elems = list(elems)
+                    if isinstance(elems, list) and et is not None and not all(in_domain({"ty": et, "val": tag(e)}) for e in elems):
                         continue
-                    if not isinstance(elems, list):
+                    if isinstance(elems, list) and et is None and any(isinstance(e, (list, dict)) for e in elems):
                         continue
-                else:
-                    elems = list(v)
-                et = c["ty"][1]
+                    lines.append("C07 arraytext " + wire.line(None if et is None else ty_of(et[0]), wire_val(v), float_table(v)))
+                    slots.append(i)
+                    continue
+                elems = list(v)
                 ok = all(in_domain({"ty": et, "val": tag(e)}) for e in elems) if et is not None else True
                 if not ok:
                     continue
@@ -450,8 +470,39 @@ def model_results(ctx, cases):
     for i, o in zip(slots, ctx.model.batch(lines)):
         if not o.startswith("ok "):
             raise InfraError("model rejected case %r: %r" % (cases[i], o))
-        mres[i] = wire.dec_all(o[3:])[0]
+        r = wire.dec_all(o[3:])[0]
+        if r[0] == "unsupported":
+            ctx.hit("json-text-outside-the-modelled-subset")
+            continue
+        mres[i] = r
     return mres
+
+
+NUM_RUN = None
+
+
+def float_table(v, limit=400):
+    """The parameter `fot` for one JSON text: float(token) for every run of number characters in it."""
+    import re
+
+    global NUM_RUN
+    if NUM_RUN is None:
+        NUM_RUN = re.compile(r"[-+0-9.eE]+")
+    if isinstance(v, bytes):
+        try:
+            v = v.decode("utf-8")
+        except UnicodeDecodeError:
+            return []
+    out, seen = [], set()
+    for tok in NUM_RUN.findall(v):
+        if tok in seen or len(out) >= limit:
+            continue
+        seen.add(tok)
+        try:
+            out.append([tok, float(tok)])
+        except (ValueError, OverflowError):
+            pass
+    return out
 
 
 def judge(c, out, m):
@@ -488,6 +539,10 @@ def report_single(ctx, c, out, clause, m):
             c_min = shrink(c, still, budget=150)
         elif c["ty"][0] == "ARRAY":
             c_min = shrink_array(c, clause)
+        elif c["ty"][0] == "INTEGER":
+            c_min = shrink_int(c, clause)
+        elif c["ty"][0] in ("VARCHAR", "BLOB"):
+            c_min = shrink_prefix(c, clause)
     o2 = run_impl(c_min)
     ctx.fail(c_min, oracle(c_min, o2) or clause, impl=[o2[0], repr(o2[1])[:200]], model=m if c_min is c else None)
 
@@ -540,6 +595,93 @@ def shrink_array(c, clause):
             except Exception:
                 continue
     return cur
+
+
+def shrink_prefix(c, clause):
+    """A text / binary cast with a maximum length that fails: drop characters (bytes) of the input one at a time while the
+    same clause fails; the expected value is recomputed from the statement (longest prefix within the length)."""
+    try:
+        name, k = c["ty"][0], c["ty"][1]
+        v = py_val(c["val"])
+        if not isinstance(v, (str, bytes)):
+            return c
+
+        def want(x):
+            if name == "VARCHAR":
+                t = x.decode("utf-8") if isinstance(x, bytes) else x
+            else:
+                t = x.encode("utf-8") if isinstance(x, str) else x
+            return t[:k] if k else t
+
+        def mk(x):
+            return dict(c, ty=[name, k], val=tag(x), expect=tag(want(x)))
+
+        def fails(x):
+            try:
+                c2 = mk(x)
+            except UnicodeDecodeError:
+                return False
+            return _norm(oracle(c2, run_impl(c2))) == _norm(clause)
+
+        if not fails(v):
+            return c
+        cur, tries = v, 0
+        for _round in range(3):
+            progress = True
+            while progress and tries < 400:  # drop one character (byte) at a time
+                progress = False
+                for i in range(len(cur)):
+                    tries += 1
+                    x = cur[:i] + cur[i + 1:]
+                    if fails(x):
+                        cur, progress = x, True
+                        break
+            if not k:
+                break
+            k_keep, found = k, False
+            for k2 in range(1, k_keep):  # a smaller maximum length that still shows it
+                k = k2
+                if fails(cur):
+                    found = True
+                    break
+            if not found:
+                k = k_keep
+                break
+        return mk(cur)
+    except Exception:
+        return c
+
+
+def shrink_int(c, clause):
+    """An integer rendering that is cast wrongly: the same rendering (sign, padding, text or bytes) of the smallest
+    magnitude found that still fails the same clause."""
+    try:
+        k = py_val(c["expect"])
+        v = py_val(c["val"])
+        if type(k) is not int or not isinstance(v, (str, bytes)):
+            return c
+        txt = v.decode("utf-8") if isinstance(v, bytes) else v
+        if txt.count(str(k)) != 1:
+            return c
+        pre, post = txt.split(str(k))
+
+        def with_int(j):
+            t = pre + str(j) + post
+            return dict(c, val=tag(t.encode("utf-8") if isinstance(v, bytes) else t), expect=tag(j))
+
+        def fails(j):
+            c2 = with_int(j)
+            return _norm(oracle(c2, run_impl(c2))) == _norm(clause)
+
+        sgn = -1 if k < 0 else 1
+        bits = sorted(set(list(range(0, min(abs(k).bit_length(), 130))) + [2 ** e for e in range(7, 15) if 2 ** e <= abs(k).bit_length()]))
+        for b in bits:
+            for j in (2 ** b - 1, 2 ** b, 2 ** b + 1):
+                if 0 <= j < abs(k) and fails(sgn * j):
+                    return with_int(sgn * j)
+    except Exception:
+        pass
+    return c
 
 
 # ----- what was cast before, in this process (for failures that depend on it)
@@ -771,6 +913,415 @@ def core_jsonable(x):
     return _jsonable(x)
 
 
+# --------------------------------------------------------------------------- the JSON reader / writer of the model vs orjson
+#
+# Model/CastJson.lean describes what `orjson.loads` does with the JSON subset arrays are rendered in, and what
+# `orjson.dumps` / `json.dumps` write.  Both are compared here with the libraries themselves, orso out of the picture
+# (a difference is a defect of the model or the harness: InfraError, never a VIOLATION).  The hypotheses of the
+# round-trip theorem about floats (`Cast.Json.FloatParam`) are sampled on the same run.
+
+
+def strict_same(a, b):
+    if type(a) is not type(b):
+        return False
+    if isinstance(a, float):
+        return struct.pack(">d", a) == struct.pack(">d", b)
+    if isinstance(a, list):
+        return len(a) == len(b) and all(strict_same(x, y) for x, y in zip(a, b))
+    if isinstance(a, dict):
+        return list(a) == list(b) and all(strict_same(a[k], b[k]) for k in a)
+    return a == b
+
+
+def gen_json(rng, depth=0):
+    r = rng.random()
+    if depth < 5 and r < 0.3:
+        return [gen_json(rng, depth + 1) for _ in range(rng.choice([0, 1, 1, 2, 3, 5]))]
+    if r < 0.4:
+        return None
+    if r < 0.5:
+        return rng.random() < 0.5
+    if r < 0.7:
+        return rng.choice([0, 1, -1, 2**63 - 1, 2**63, -(2**63), -(2**63) - 1, 2**64 - 1, 2**64, 2**64 + 1, 10**30 + 7, rng.randint(-10**6, 10**6),
+                           rng.getrandbits(64), -rng.getrandbits(63), rng.getrandbits(70)])
+    if r < 0.85:
+        f = gen_float(rng)
+        return 0.5 if (f != f or f in (float("inf"), float("-inf"))) else f
+    n = rng.choice([0, 1, 3, 8])
+    return "".join(rng.choice(TEXT_ALPHA + "\\/\x00\x01\x08\x0c\r\t\x1f\x7f\u2028\ud7ff\ue000\uffff\U0010ffff") for _ in range(n))
+
+
+def json_texts(rng, n):
+    import orjson
+
+    for _ in range(n):
+        v = gen_json(rng)
+        k = rng.randrange(6)
+        try:
+            if k == 0:
+                t = orjson.dumps(v).decode("utf-8")
+            elif k == 1:
+                t = json.dumps(v, ensure_ascii=False)
+            elif k == 2:
+                t = json.dumps(v, ensure_ascii=True)
+            elif k == 3:
+                t = json.dumps(v, indent=rng.choice([0, 1, 2]), ensure_ascii=False)
+            elif k == 4:
+                t = json.dumps(v, separators=(rng.choice([",", " ,", ",\t", " \r\n, "]), ":"), ensure_ascii=rng.random() < 0.3)
+                t = rng.choice(["", " ", "\n\t"]) + t + rng.choice(["", " ", "\r\n"])
+            else:
+                t = json.dumps(v, ensure_ascii=False).replace("e+", rng.choice(["e+", "E+", "e", "E"]))
+        except TypeError:  # orjson.dumps: integer beyond 64 bits
+            t = json.dumps(v)
+        yield t
+        if rng.random() < 0.5 and t:  # a damaged copy: the model must reject what orjson rejects
+            i = rng.randrange(len(t))
+            ch = rng.choice('[]",\\ue0 1-+.eE{}ntf\x00\x1f\x7f\t\n\x0b\xa0:x')
+            yield rng.choice([t[:i] + t[i + 1:], t[:i] + ch + t[i:], t[:i] + ch + t[i + 1:], t[:i], t + ch])
+    for t in ["-0", "[-0]", "[-0.0]", "01", "[1.]", "[.5]", "[+1]", "[1e5]", "[1E+5]", "[1e]", "[-]", "[--1]", "[1e400]", "[-1e400]", "[" + "9" * 400 + "]", "[1,]", "[,1]", "[]", "[ ]", " [ 1 , 2 ] ",
+              "[1 2]", "nul", "nulll", "[True]", "[NaN]", "[Infinity]", '["\\ud83d\\ude00"]', '["\\ud83d"]', '["\\ude00"]', '["\\ud83d\\u0041"]', '["\\ud83dx"]', '["\\x41"]', '["\\/"]',
+              '["\\u12"]', '["\\U0041"]', "['a']", '["abc', "[1]x", "[1] x", "", "   ", "\x0b[1]", "\ufeff[1]", '["a\tb"]', '["a\nb"]', '["\x7f"]', '["\\u0000"]', '["\\uFFFF\\uabcd"]',
+              "[[[[[[[[[[[[[[[[[[[[1]]]]]]]]]]]]]]]]]]]]", "[[1],[2,[3]]", "[1]]", "[18446744073709551615,18446744073709551616,-9223372036854775808,-9223372036854775809]", "[1e-400]", "[0e0]",
+              "[0.0000000000000000000000000000000000001e37]", '"abc"', "5", "1.5", "true", "null", "[\"\\\\\"]"]:
+        yield t
+
+
+def json_mirror(ctx, n):
+    import orjson
+
+    rng = ctx.rng
+    texts = [t for t in json_texts(rng, n)]
+    lines, kept = [], []
+    for t in texts:
+        try:
+            lines.append("C07 jsonread " + wire.line(t, float_table(t)))
+            kept.append(t)
+        except UnicodeEncodeError:
+            continue
+    for t, o in zip(kept, ctx.model.batch(lines)):
+        if not o.startswith("ok "):
+            raise InfraError("model rejected jsonread of %r: %r" % (t, o))
+        m = wire.dec_all(o[3:])[0]
+        try:
+            want = ("ok", orjson.loads(t))
+        except orjson.JSONDecodeError:
+            want = ("err",)
+        if m[0] == "unsupported":
+            ctx.hit("json-mirror:outside-the-subset")
+            continue
+        ctx.hit("json-mirror:read:" + want[0])
+        if m[0] != want[0] or (m[0] == "ok" and not strict_same(m[1], want[1])):
+            raise InfraError("Model/CastJson.lean reads %r as %r, orjson.loads as %r" % (t, m, want))
+    # the writer
+    vals = [gen_json(rng) for _ in range(n // 2)]
+
+    def floats_of(v, acc):
+        if isinstance(v, float):
+            acc.append(v)
+        elif isinstance(v, list):
+            for x in v:
+                floats_of(x, acc)
+        return acc
+
+    def ints_ok(v):
+        if type(v) is int:
+            return -(2**63) <= v < 2**64
+        if isinstance(v, list):
+            return all(ints_ok(x) for x in v)
+        return True
+
+    lines, want = [], []
+    for v in vals:
+        v = v if isinstance(v, list) else [v]
+        fs = floats_of(v, [])
+        if ints_ok(v):
+            lines.append("C07 jsonrender " + wire.line(v, ["", "", ""], [[f, orjson.dumps(f).decode()] for f in fs]))
+            want.append(("orjson.dumps", v, orjson.dumps(v).decode("utf-8")))
+        lines.append("C07 jsonrender " + wire.line(v, ["", " ", ""], [[f, repr(f)] for f in fs]))
+        want.append(("json.dumps", v, json.dumps(v, ensure_ascii=False)))
+    for (who, v, txt), o in zip(want, ctx.model.batch(lines)):
+        if not o.startswith("ok "):
+            raise InfraError("model rejected jsonrender of %r: %r" % (v, o))
+        got = wire.dec_all(o[3:])[0]
+        ctx.hit("json-mirror:write:" + who)
+        if got != txt:
+            raise InfraError("Model/CastJson.lean writes %r as %r, %s as %r" % (v, got, who, txt))
+    # the float hypotheses of `json_roundtrip` (Cast.Json.FloatParam), for both float renderings
+    import re
+
+    num = re.compile(r"-?(0|[1-9][0-9]*)(\.[0-9]+)?([eE][-+]?[0-9]+)?\Z")
+    bad = 0
+    for _ in range(ctx.scale(20000, 200000)):
+        bits = rng.getrandbits(64) if rng.random() < 0.8 else rng.getrandbits(52)
+        f = struct.unpack(">d", struct.pack(">Q", bits))[0]
+        if f != f or f in (float("inf"), float("-inf")):
+            continue
+        for txt in (repr(f), orjson.dumps(f).decode()):
+            if not (num.match(txt) and any(ch in txt for ch in ".eE") and struct.pack(">d", float(txt)) == struct.pack(">d", f)):
+                bad += 1
+        ctx.hit("json-float-parameter-samples")
+    if bad:
+        raise InfraError("parameter violated: a float rendering is not a JSON number with fraction or exponent that float() reads back (%d samples)" % bad)
+
+
+# --------------------------------------------------------------------------- two threads casting at once
+#
+# A *shared-mutable-module-state* detector for the cast path.  The statement gives the value of a cast from its input and
+# options alone; nothing in it is conditional on what another thread of the same process is casting.  Two casts with
+# different options are run on two real threads under the deterministic line-granular scheduler of C19
+# (harness/sched.py): exactly one thread runs at a time and control changes hands only before a source line of orso code.
+# Schedules: every single pre-emption (thread X executes i lines, the other cast then runs from start to end, X finishes;
+# both directions, every i), plus sampled double pre-emptions.  Each thread's result is judged by the property exactly like
+# a cast on its own (oracle, then model).  The unchanged code keeps no state between casts, so every schedule gives the
+# sequential answers; module-level state written before it is used (a shared decimal.Context whose `prec` is set per call,
+# a scratch buffer, a "current options" global) is overwritten by the other thread in between.
+# Replay case: {"threads": [step, step], "schedule": [[thread id, number of lines], ...]}.
+
+
+def orso_codes():
+    """Every code object defined in a loaded module of the orso package under test (functions, methods, nested code)."""
+    import types as T
+
+    from ..core import REPO
+
+    root = os.path.join(os.path.realpath(REPO), "orso") + os.sep
+    out = set()
+
+    def walk(co):
+        if co in out:
+            return
+        out.add(co)
+        for k in co.co_consts:
+            if isinstance(k, T.CodeType):
+                walk(k)
+
+    def visit(obj, modname, depth=0):
+        if isinstance(obj, T.FunctionType):
+            walk(obj.__code__)
+        elif isinstance(obj, (classmethod, staticmethod)):
+            visit(obj.__func__, modname, depth)
+        elif isinstance(obj, property):
+            for f in (obj.fget, obj.fset, obj.fdel):
+                if f is not None:
+                    visit(f, modname, depth)
+        elif isinstance(obj, type) and depth < 3 and getattr(obj, "__module__", None) == modname:
+            for v in list(vars(obj).values()):
+                visit(v, modname, depth + 1)
+
+    for name, m in list(sys.modules.items()):
+        f = getattr(m, "__file__", None)
+        if not f or not os.path.realpath(f).startswith(root) or not f.endswith(".py"):
+            continue
+        for v in list(vars(m).values()):
+            visit(v, name)
+    return {co for co in out if os.path.realpath(co.co_filename).startswith(root)}
+
+
+def run_threads(steps, schedule, codes):
+    from .. import sched
+
+    thunks = [(lambda st=st: run_step(st)) for st in steps]
+    res = sched.run(thunks, schedule, codes, timeout=5.0)
+    outs = []
+    for o in res["outcomes"]:
+        outs.append(o[1] if (o is not None and o[0] == "ok") else None)  # run_step never raises; None = no outcome (stuck)
+    return outs, res
+
+
+def rle(schedule):
+    """[0, 0, 0, 1, 1] -> [[0, 3], [1, 2]] (how a schedule is written into a replay)."""
+    out = []
+    for t in schedule:
+        if out and out[-1][0] == t:
+            out[-1][1] += 1
+        else:
+            out.append([t, 1])
+    return out
+
+
+def unrle(runs):
+    return [t for t, n in runs for _ in range(n)]
+
+
+def where_is(lineno, codes):
+    """Which watched functions have a statement on that line (the scheduler records line numbers only)."""
+    names = set()
+    for co in codes:
+        if any(ln == lineno for _, _, ln in co.co_lines()):
+            names.add("%s:%d (%s)" % (os.path.basename(co.co_filename), lineno, co.co_name))
+    return " or ".join(sorted(names)[:3]) or "line %d" % lineno
+
+
+def solo_lines(step, codes):
+    """The watched source lines one cast executes on its own, in order: [(file, line, function)] (the scheduler records line
+    numbers only; the k-th line of a thread under the scheduler is the k-th line of its cast alone)."""
+    out = []
+
+    def local(frame, event, arg):
+        if event == "line":
+            out.append((os.path.basename(frame.f_code.co_filename), frame.f_lineno, frame.f_code.co_name))
+        return local
+
+    def glob(frame, event, arg):
+        return local if (event == "call" and frame.f_code in codes) else None
+
+    old = sys.gettrace()
+    sys.settrace(glob)
+    try:
+        run_step(step)
+    finally:
+        sys.settrace(old)
+    return out
+
+
+def describe_schedule(trace, codes, steps=None):
+    solo = [solo_lines(st, codes) for st in steps] if steps else None
+    seen = [0, 0]
+    runs = []
+    for t, ln in trace:
+        name = None
+        if solo is not None and t < 2 and seen[t] < len(solo[t]) and solo[t][seen[t]][1] == ln:
+            name = "%s:%d (%s)" % solo[t][seen[t]]
+        if t < 2:
+            seen[t] += 1
+        if runs and runs[-1][0] == t:
+            runs[-1][2] += 1
+        else:
+            runs.append([t, name or where_is(ln, codes), 1])
+    return "; ".join("thread %d runs %d line%s from %s" % (t, n, "" if n == 1 else "s", w_) for t, w_, n in runs)
+
+
+def thread_pairs(ctx, n_random):
+    """Pairs of casts with different options (fixed boundary pairs first, then pairs drawn from the sequence generator)."""
+    big = "12345678901234567890123456789012345678"
+    d28 = D("0." + "1234567890" * 2 + "12345678")
+    fixed = [
+        (case(["DECIMAL", 38, 0], big, "decimal: exact when it fits", D(big)), case(["DECIMAL", 5, 2], "123.45", "decimal: exact when it fits", D("123.45"))),
+        (case(["DECIMAL", 28, 28], d28, "decimal: identity on a typed value", d28), case(["DECIMAL", 10, 3], b" 15 ", "decimal: exact when it fits (padded)", D("15.000"))),
+        (case(["DECIMAL", None, None], "1.5", "decimal: exact when it fits", D("1.5")), case(["DECIMAL", 2, 1], D("-9.9"), "decimal: identity on a typed value", D("-9.9"))),
+        (case(["VARCHAR", 2], "héllo", "text: longest prefix within the length", "hé"), case(["VARCHAR", None], "héllo".encode("utf-8"), "text: longest prefix within the length", "héllo")),
+        (case(["BLOB", 3], "日a", "binary: longest prefix within the length", "日".encode("utf-8")), case(["BLOB", 1], b"xyz", "binary: longest prefix within the length", b"x")),
+        ({"ty": ["ARRAY", ["INTEGER"]], "val": tag("[1,null,3]"), "clause": "JSON array element-wise, nulls kept", "expect": tag([1, None, 3])},
+         {"ty": ["ARRAY", ["VARCHAR"]], "val": tag(b'["1",null,"3"]'), "clause": "JSON array element-wise, nulls kept", "expect": tag(["1", None, "3"])}),
+        ({"ty": ["ARRAY", ["DATE"]], "val": tag('["2024-02-29"]'), "clause": "JSON array element-wise, nulls kept", "expect": tag([datetime.date(2024, 2, 29)])},
+         {"ty": ["ARRAY", ["BOOLEAN"]], "val": tag(["yes", None, False]), "clause": "array element-wise, nulls kept", "expect": tag([True, None, False])}),
+        (case(["INTEGER"], " -9007199254740993 ", "integer rendering (padded)", -9007199254740993), case(["DOUBLE"], b"1.5", "float rendering (repr)", 1.5)),
+        (case(["DATE"], "2024-02-29", "date rendering", datetime.date(2024, 2, 29)),
+         case(["TIMESTAMP"], "2023-04-18 12:34:56.5", "timestamp rendering", datetime.datetime(2023, 4, 18, 12, 34, 56))),
+        (case(["BOOLEAN"], "yes", "documented truthy word", True), case(["BOOLEAN"], b"False", "boolean rendering", False)),
+        ({"ty": ["DECIMAL", None, None], "val": tag("2.5"), "column": "DECIMAL", "clause": "column default is the cast of the given default", "expect": tag(D("2.5"))},
+         {"ty": ["INTEGER"], "val": tag("12"), "column": "INTEGER", "clause": "column default is the cast of the given default", "expect": tag(12)}),
+    ]
+    rng = ctx.rng
+    # the types that carry options first (that is where a "current options" global would live); the time budget of the
+    # quick tier covers some seven pairs: which of the others varies with the seed
+    first = [fixed[0], fixed[3], fixed[5], fixed[4], fixed[1]]
+    rest = [p_ for p_ in fixed if not any(p_ is q_ for q_ in first)]
+    rng.shuffle(rest)
+    for a, b in first + rest:
+        yield [a, b]
+    made = 0
+    for seq in sequence_cases(ctx, n_random * 3):
+        if made >= n_random:
+            break
+        steps = [plain_of(s_) for s_ in seq]
+        i, j = rng.randrange(len(steps)), rng.randrange(len(steps))
+        if steps[i] == steps[j] or (steps[i]["ty"] == steps[j]["ty"] and steps[i]["val"] == steps[j]["val"]):
+            continue
+        made += 1
+        yield [steps[i], steps[j]]
+
+
+def evaluate_threads(ctx, pairs, budget_s, doubles):
+    """Run each pair under every single pre-emption (and `doubles` sampled double pre-emptions); judge every result."""
+    t_end = time.time() + budget_s
+    pairs = list(pairs)
+    flat = [st for pr in pairs for st in pr]
+    mres = model_results(ctx, flat)
+    codes = None
+    rng = ctx.rng
+    FAR = 4000  # longer than any cast's line count: "run this thread to its end"
+    for pi, steps in enumerate(pairs):
+        if time.time() > t_end:
+            ctx.hit("threads:pairs-not-run (time)")
+            continue
+        ms = [mres.get(2 * pi), mres.get(2 * pi + 1)]
+        # the two casts on their own, one after the other (warm-up: lazy imports happen here, not under the scheduler)
+        solo = [run_step(st) for st in steps]
+        if any(judge(st, o, m) is not None for st, o, m in zip(steps, solo, ms)):
+            ctx.hit("threads:pair-wrong-sequentially (left to the sequence check)")
+            evaluate_seqs(ctx, [[dict(steps[0]), dict(steps[1])]])
+            continue
+        if codes is None:
+            codes = orso_codes()
+            ctx.hit("threads:orso-code-objects-watched", len(codes))
+        outs, res = run_threads(steps, [], codes)
+        if res["stuck"] or any(o is None for o in outs):
+            ctx.hit("threads:stuck")
+            continue
+        n = [sum(1 for t, _ in res["trace"] if t == k) for k in (0, 1)]
+        ctx.hit("threads:pair")
+        ctx.hit("threads:pair:%s+%s" % (("column-default" if "column" in steps[0] else steps[0]["ty"][0]), ("column-default" if "column" in steps[1] else steps[1]["ty"][0])))
+        ctx.hit("threads:lines-per-cast", n[0] + n[1])
+        scheds = []
+        for x in (0, 1):
+            for i in range(1, n[x]):  # x executes i lines, the other cast runs whole, x finishes
+                scheds.append([x] * i + [1 - x] * FAR)
+        for _ in range(doubles):  # x: i lines, other: j lines, x: k lines, other to its end, x finishes
+            x = rng.randrange(2)
+            i, j = rng.randrange(1, max(2, n[x])), rng.randrange(1, max(2, n[1 - x]))
+            k = rng.randrange(1, max(2, n[x] - i + 1))
+            scheds.append([x] * i + [1 - x] * j + [x] * k + [1 - x] * FAR)
+        for sc in scheds:
+            if time.time() > t_end:
+                ctx.hit("threads:schedules-not-run (time)")
+                break
+            outs, res = run_threads(steps, sc, codes)
+            ctx.evaluations += 1
+            ctx.hit("threads:schedule")
+            if res["stuck"] or any(o is None for o in outs):
+                ctx.hit("threads:stuck")
+                continue
+            bad = None
+            for k in (0, 1):
+                v = judge(steps[k], outs[k], ms[k])
+                if v is not None:
+                    bad = (k, v)
+                    break
+            if bad is None:
+                continue
+            k, (kind, clause) = bad
+            actual = [t for t, _ in res["trace"]]
+            report_threads(ctx, steps, actual, k, kind, clause, outs, ms, res["trace"], codes)
+            break
+
+
+def report_threads(ctx, steps, schedule, k, kind, clause, outs, ms, trace, codes):
+    c = {"threads": [dict(steps[0]), dict(steps[1])], "schedule": rle(schedule)}
+    text = "%s — cast %d of two casts on two threads (deterministic line interleaving; each alone, and one after the other, is right)" % (clause, k)
+    impl = [[o[0], repr(o[1])[:200]] for o in outs]
+    detail = describe_schedule(trace, codes, steps)
+    if kind == "fail":
+        return ctx.fail(c, text, impl=impl, model=ms[k], detail=detail)
+    return ctx.disagree(c, impl, ms[k], text + " [" + detail + "]")
+
+
+def replay_threads(ctx, c):
+    steps = [dict(s_) for s_ in c["threads"]]
+    mres = model_results(ctx, steps)
+    ms = [mres.get(0), mres.get(1)]
+    [run_step(st) for st in steps]
+    codes = orso_codes()
+    outs, res = run_threads(steps, unrle(c.get("schedule") or []), codes)
+    ctx.case(c, True)
+    if res["stuck"] or any(o is None for o in outs):
+        raise InfraError("C07 threads replay: the scheduler got stuck")
+    for k in (0, 1):
+        v = judge(steps[k], outs[k], ms[k])
+        if v is not None:
+            return report_threads(ctx, steps, [t for t, _ in res["trace"]], k, v[0], v[1], outs, ms, res["trace"], codes)
+
+
 # --------------------------------------------------------------------------- generators
 
 SCALARS = ["BOOLEAN", "INTEGER", "DOUBLE", "DECIMAL", "VARCHAR", "BLOB", "DATE", "TIMESTAMP"]
@@ -795,7 +1346,7 @@ def case(ty, v, clause=None, expect=None, wrap=False):
 def gen_int(rng):
     r = rng.random()
     if r < 0.3:
-        return rng.choice([0, 1, -1, 10, -10, 2**31, 2**63 - 1, 2**63, 2**64, -(2**63), 10**18, 10**19, 10**100, -(10**100), 10**4299 - 1, -(10**4298)])
+        return rng.choice([0, 1, -1, 10, -10, 2**31, 2**53, 2**53 + 1, -(2**53) - 1, 2**63 - 1, -(2**63) + 1, 2**63, 2**64, -(2**63), 10**18, 10**19, 10**100, -(10**100), 10**4299 - 1, -(10**4298)])
     if r < 0.6:
         return rng.randint(-1000, 1000)
     if r < 0.9:
@@ -1054,29 +1605,43 @@ def array_cases(ctx, n):
                    "clause": "array element-wise (typed values and renderings mixed), nulls kept", "expect": tag(want)}
     for src in ["5", "null", '{"a":1}', '"abc"', "x", "", "[", "[[1],[2]]", "[1,2", "true", "[1.5]", '["x"]', b"\xff"]:
         for et in (None, ["INTEGER"], ["VARCHAR"], ["DOUBLE"]):
-            yield {"ty": ["ARRAY", et], "val": tag(src), "no_model": True}
+            yield {"ty": ["ARRAY", et], "val": tag(src)}
     # integers beyond orjson's 64-bit range (json.dumps renders them; orjson.loads reads them as doubles)
     for big in [2**64, 2**64 + 1, -(2**63) - 1, 10**30 + 7]:
-        yield {"ty": ["ARRAY", ["INTEGER"]], "val": tag("[%d]" % big), "clause": "JSON array element-wise, nulls kept", "expect": tag([big]), "no_model": True}
+        yield {"ty": ["ARRAY", ["INTEGER"]], "val": tag("[%d]" % big), "clause": "JSON array element-wise, nulls kept", "expect": tag([big])}
+
+
+def default_one(ctx, tyname, v, ty):
+    """One FlatColumn(type=tyname, default=v): the stored default is the column type's cast of `v` (schema.py casts a truthy
+    default with `self.type.parse(default)`, no options) — same value, same class — or the constructor raises when the cast does."""
+    got = run_column({"column": tyname, "val": tag(v)})
+    want = run_impl({"ty": ty, "val": tag(v)})
+    ctx.case({"default": tyname, "val": tag(v)}, True)
+    ctx.hit("column-default")
+    ctx.hit("column-default:%s<-%s" % (tyname, type(v).__name__))
+    clause = None
+    if got[0] == "ok" and got[1] is not None and not class_ok(tyname.split("<")[0], got[1]):
+        clause = "column default: the stored default has another class than the column type's"
+    elif got[0] != want[0] or (got[0] == "ok" and not same(got[1], want[1])):
+        clause = "column default is not the cast of the given default"
+    if clause is not None:
+        ctx.fail({"ty": ty, "val": tag(v), "default": tyname}, clause, impl=[got[0], repr(got[1])[:200]], model=[want[0], repr(want[1])[:200]],
+                 detail="FlatColumn(type=%r, default=%r).default is a %s; %s.parse(default) gives %r" % (tyname, v, type(got[1]).__name__, tyname.split("<")[0], want[1]))
 
 
 def default_cases(ctx):
-    """FlatColumn(default=...) goes through the same cast (truthy defaults only)."""
-    from orso.schema import FlatColumn
-
-    for tyname, v, ty in [("INTEGER", "12", ["INTEGER"]), ("DOUBLE", "1.5", ["DOUBLE"]), ("BOOLEAN", "yes", ["BOOLEAN"]), ("VARCHAR", "abc", ["VARCHAR", None]),
-                          ("BLOB", "abc", ["BLOB", None]), ("DATE", "2023-01-02", ["DATE"]), ("TIMESTAMP", "2023-01-02T03:04:05", ["TIMESTAMP"]),
-                          ("DECIMAL", D("1.5"), ["DECIMAL", None, None]), ("DECIMAL", "1.5", ["DECIMAL", None, None])]:
-        try:
-            col = FlatColumn(name="c", type=tyname, default=v)
-            got = ("ok", col.default)
-        except Exception as e:
-            got = ("err", type(e).__name__)
-        want = run_impl({"ty": ty, "val": tag(v)})
-        ctx.evaluations += 1
-        ctx.hit("column-default")
-        if got[0] != want[0] or (got[0] == "ok" and not same(got[1], want[1])):
-            ctx.fail({"ty": ty, "val": tag(v), "default": True}, "column default is not the cast of the given default", impl=[got[0], repr(got[1])], model=None)
+    """FlatColumn(default=...) goes through the same cast (truthy defaults only: falsy ones are not cast, an observation).
+    Every value type's column is given defaults of *every* class: its own, subclasses of it (bool for int, datetime for
+    date), renderings (text, bytes), and values of the other types."""
+    dd, dt = datetime.date(2023, 4, 18), datetime.datetime(2023, 4, 18, 12, 34, 56)
+    values = [True, 1, 7, -3, 2**70, 1.5, 2.0, "12", b"12", " 12 ", "1.5", "yes", "abc", b"abc", "h\u00e9", dd, dt, "2023-04-18", "2023-04-18T12:34:56", b"2023-04-18 12:34:56.25",
+              D("1.5"), D("2"), D("1E+2"), "1.50"]
+    for tyname in SCALARS:
+        ty = ty_of(tyname)
+        for v in values:
+            default_one(ctx, tyname, v, ty)
+    for v in ["[1, null, 3]", b'["a", null]', (1, 2), [None, "x"], ["2023-04-18"]]:
+        default_one(ctx, "ARRAY<VARCHAR>", v, ["ARRAY", None])
 
 
 def sequence_cases(ctx, n):
@@ -1103,16 +1668,12 @@ def sequence_cases(ctx, n):
             c = {"ty": ["ARRAY", [et] if typed else None], "val": tag(src)}
             if typed:
                 c.update(clause="JSON array element-wise, nulls kept" if isinstance(src, (str, bytes)) else "array element-wise, nulls kept", expect=tag(want))
-            elif isinstance(src, (str, bytes)):
-                c["no_model"] = True
             seq = again(c, "use, edit the result, use again")
             if rng.random() < 0.5:  # the other rendering of the same array in between / afterwards
                 other = js.decode("utf-8") if isinstance(src, bytes) else js
                 c2 = dict(c, val=tag(other))
                 if typed:
                     c2["clause"] = "JSON array element-wise, nulls kept"
-                elif "no_model" not in c2:
-                    c2["no_model"] = True
                 seq = [seq[0], dict(c2, then="edit"), seq[1], c2]
             yield seq
         elif r < 0.4:
@@ -1228,8 +1789,6 @@ def sequence_cases(ctx, n):
     for col, v, ty, want in [("ARRAY<INTEGER>", "[1, null, 3]", ["ARRAY", None], [1, None, 3]), ("ARRAY<VARCHAR>", b'["a", null]', ["ARRAY", None], ["a", None]),
                              ("ARRAY<INTEGER>", (1, 2), ["ARRAY", None], [1, 2]), ("INTEGER", "12", ["INTEGER"], 12), ("VARCHAR", "abc", ["VARCHAR", None], "abc")]:
         c = {"ty": ty, "val": tag(v), "column": col, "clause": "column default is the cast of the given default", "expect": tag(want)}
-        if ty[0] == "ARRAY" and isinstance(v, (str, bytes)):
-            c["no_model"] = True
         d = {k_: v_ for k_, v_ in c.items() if k_ != "column"}
         yield [dict(c, then="edit", kind="two columns with the same default"), dict(c), dict(d, then="edit"), dict(c), d]
 
@@ -1315,6 +1874,7 @@ def run(ctx):
     ])
     ctx.exhaustive = False
     float_repr_sample(ctx, ctx.scale(100000, 1000000))
+    json_mirror(ctx, ctx.scale(1500, 20000))
     default_cases(ctx)
     batches(ctx, null_cases(ctx))
     batches(ctx, bool_cases(ctx))
@@ -1325,6 +1885,7 @@ def run(ctx):
     batches(ctx, decimal_cases(ctx, grid(ctx), ctx.scale(6, 12)))
     batches(ctx, array_cases(ctx, ctx.scale(800, 10000)))
     seq_batches(ctx, sequence_cases(ctx, ctx.scale(1200, 15000)))
+    evaluate_threads(ctx, thread_pairs(ctx, ctx.scale(4, 150)), ctx.scale(4, 90), ctx.scale(4, 60))
     ctx.note("exhaustive_scope", "decimal (precision, scale) grid: %s" % ("all 780 pairs 0<=s<=p<=38" if ctx.tier == "thorough" else "16 boundary pairs + 60 sampled"))
 
 
@@ -1334,11 +1895,18 @@ def intensify(ctx):
     batches(ctx, text_cases(ctx, 3000))
     batches(ctx, array_cases(ctx, 3000))
     seq_batches(ctx, sequence_cases(ctx, 3000))
+    evaluate_threads(ctx, thread_pairs(ctx, 60), 30, 30)
 
 
 def replay(ctx, case):
+    if "threads" in case:
+        replay_threads(ctx, case)
+        return
     if case.get("default"):
-        default_cases(ctx)
+        if isinstance(case["default"], str):
+            default_one(ctx, case["default"], py_val(case["val"]), case["ty"])
+        else:
+            default_cases(ctx)
         return
     if "seq" in case:
         evaluate_seqs(ctx, [case["seq"]])
